@@ -268,7 +268,7 @@ Definition strict_sub (x y : entry nat) : Prop := eS y <= eS x /\ eE x <= eE y /
 Definition laminar_pair (x y : entry nat) : Prop :=
   eE x < eS y \/ eE y < eS x \/ strict_sub x y \/ strict_sub y x.
 Definition laminar (s : list (entry nat)) : Prop :=
-  forall i j, (i < j < length s)%nat -> laminar_pair (nth i s (mkE 0 0 O)) (nth j s (mkE 0 0 O)).
+  forall x y, In x s -> In y s -> x <> y -> laminar_pair x y.
 Definition op_entry (op : Z * Z * nat) : entry nat := let '(a, b, v) := op in mkE a b v.
 
 (* ------------------------------------------------------------------ correspondence *)
